@@ -475,7 +475,15 @@ def C_unchanged_pairs(repo, clause):
     # called after both origin shifts
     pre = [x for x in calls_in(rp) if isinstance(x.func, ast.Attribute) and x.func.attr == "translate" and RL.loop not in list(rp.ancestors(x))]
     ok = len(pre) == 2 and all(rp.cfg.dominates(rp.stmt_of(x), rp.stmt_of(c)) for x in pre)
-    obs.append(Ob("Cpair", clause, rp, c, ok, "the lookup happens after both patterns were shifted to the common origin", slot="after-shift"))
+    # both shifts found, both on the two patterns handed to the lookup, and the lookup is NOT after both: the patterns are compared in different frames
+    late = [x for x in pre if not rp.cfg.dominates(rp.stmt_of(x), rp.stmt_of(c))]
+    recv = {ast.unparse(x.func.value) for x in pre}
+    wrong_frame = len(pre) == 2 and bool(late) and recv == set(args) and all(rp.cfg.reaches(rp.stmt_of(c), rp.stmt_of(x)) for x in late)
+    obs.append(Ob("Cpair", clause, rp, c, ok,
+                  "the lookup happens after both patterns were shifted to the common origin" if not wrong_frame else
+                  "the lookup of shared atoms runs BEFORE `%s`: the two patterns are compared in different frames, so unless the search pattern's first atom sits at the origin no atom is recognised "
+                  "as unchanged (kept atoms are deleted and re-inserted, overlapping matches raise)" % ast.unparse(late[0])[:50],
+                  slot="after-shift", positive="robust" if wrong_frame else False))
     return obs
 
 
